@@ -74,5 +74,44 @@ def extra(tier, ctx):
             uncovered = [f for f in d["found"] if f not in d["drivers"]]
             res = {"validated": len(d["found"]), "serialiser_call_sites_discovered": d["found"], "aliased_fields_discovered": d["aliased"],
                    "uncovered_serialisers": uncovered}
+            res.update(big_lists_native(tier, ctx))
             return res
     return {"error": "serialiser discovery crashed: " + p.stderr[-400:]}
+
+
+def big_lists_native(tier, ctx):
+    """count dimension under the pure-Python backend, natively (the engine's tracing makes that backend cost seconds
+    per list item): every model with a list member, outermost lists of c-1, c, c+1 items for the integer constants
+    c of the source (<= 410 quick / 1100 thorough)"""
+    import subprocess, json
+    from symcheck import runner, consts
+    code = "import sys, json; sys.path.insert(0, %r); import harness.h_models as H; print('LISTS ' + json.dumps([k for k in H.MODELS if H.has_list(k)]))" % ctx["root"]
+    p = subprocess.run([runner.PY, "-c", code], env=runner.base_env(runner.Ob(name="x", params=[], pre=[], call="", backend="F")), capture_output=True, text=True)
+    keys = []
+    for l in p.stdout.splitlines():
+        if l.startswith("LISTS "):
+            keys = json.loads(l[6:])
+    lim = 410 if tier == "quick" else 1100
+    n = len(consts.size_cases(lim))
+    if tier == "quick":
+        keys = [k for k in keys if k.split(".")[-1] in ("ListToolsResult", "CallToolResult", "ReadResourceResult", "ListResourcesResult", "GetPromptResult", "ListRootsResult", "CreateMessageRequest", "ToolResult")]
+    calls = [["biglist:" + k.split(".")[-1], "H.lossless_big(%r, {k}, 1, 0, %d)" % (k, lim), n] for k in keys]
+    r = runner.native_cases("harness.h_models", calls, backend="F")
+    out = {("fallback_" + a): b for a, b in r.items() if a not in ("violations", "error")}
+    out["fallback_big_list_models"] = [k.split(".")[-1] for k in keys]
+    if "violations" in r:
+        out["violations"] = r["violations"]
+    if "error" in r:
+        out["error"] = r["error"]
+    return out
+
+
+def replay_extra(rec):
+    """re-run the recorded native case"""
+    from symcheck import runner
+    call = (rec.get("witness") or {}).get("call")
+    if not call:
+        return "no-replay"
+    r = runner.native_cases("harness.h_models", [["replay", call, 1]], backend="F")
+    v = r.get("violations")
+    return v[0]["reason"] if v else "ok"
